@@ -664,4 +664,113 @@ def addChunk (a0 a1 a2 a3 b0 b1 b2 b3 : W128) : W128 × W128 × W128 × W128 :=
   let f := fun (i : V4 → W) => Vec128.add4 (i la) (i ha) (i lb) (i hb)
   store4 ⟨(f V4.l0).1, (f V4.l1).1, (f V4.l2).1, (f V4.l3).1⟩ ⟨(f V4.l0).2, (f V4.l1).2, (f V4.l2).2, (f V4.l3).2⟩
 
+/-! ### slice level of the `i128` kernels (`ntt120/vec_znx_big.rs` dispatch + `vec_znx_big_avx.rs`) -/
+
+/-- lane of a normalisation kernel: `(res element, a element, carry element) ↦ (res', carry')` -/
+abbrev Lane128 := W → W128 → W128 → W × W128
+
+def sext (x : W) : W128 := x.signExtend 128
+
+def refLane128 (op : String) (b lsh : W) : Option Lane128 :=
+  match op with
+  | "nfc_middle" => some (fun _ a c => Ref128.middleCore b lsh a c)
+  | "nfc_middle_assign" => some (fun x _ c => Ref128.middleCore b lsh (sext x) c)
+  | "nfc_middle_add" => some (fun x a c => let r := Ref128.middleCore b lsh a c; (x + r.1, r.2))
+  | "nfc_middle_sub" => some (fun x a c => let r := Ref128.middleCore b lsh a c; (x - r.1, r.2))
+  | "nfc_final_assign" => some (fun x _ c => (Ref128.finalCore b lsh x c, c))
+  | "nfc_final_add" => some (fun x _ c => (x + Ref128.finalCore b lsh x c, c))
+  | "nfc_final_sub" => some (fun x _ c => (x - Ref128.finalCore b lsh x c, c))
+  | _ => none
+
+def vecLane128 (op : String) (b lsh : W) : Option Lane128 :=
+  let s := Vec128.mkShifts b lsh
+  match op with
+  | "nfc_middle" => some (fun _ a c => Vec128.middleCore b lsh a c)
+  | "nfc_middle_assign" => some (fun x _ c =>
+      let r := Vec128.middleChunk s x (Vec128.sra_epi64 x 63#32) (lo c) (hi c); (r.1, join r.2.1 r.2.2))
+  | "nfc_middle_add" => some (fun x a c => let r := Vec128.middleCore b lsh a c; (add_epi64 x r.1, r.2))
+  | "nfc_middle_sub" => some (fun x a c => let r := Vec128.middleCore b lsh a c; (sub_epi64 x r.1, r.2))
+  | "nfc_final_assign" => some (fun x _ c => (Vec128.finalChunk s x (lo c), c))
+  | "nfc_final_add" => some (fun x _ c => (add_epi64 x (Vec128.finalChunk s x (lo c)), c))
+  | "nfc_final_sub" => some (fun x _ c => (sub_epi64 x (Vec128.finalChunk s x (lo c)), c))
+  | _ => none
+
+def run128 (f : Lane128) (l : List (W × W128 × W128)) : List (W × W128) := l.map (fun t => f t.1 t.2.1 t.2.2)
+
+/-- `impl I128NormalizeOps for NTT120Avx`: AVX2 path iff `base2k <= 64 && res.len() >= 4`
+(`n / 4` chunks, scalar tail), scalar kernel otherwise -/
+def slice128Avx (op : String) (b lsh : W) (l : List (W × W128 × W128)) : Outcome (List (W × W128)) :=
+  match vecLane128 op b lsh, refLane128 op b lsh with
+  | some fv, some fr =>
+    if decide (b ≤ 64#64) && decide (4 ≤ l.length) then
+      .ok (run128 fv (l.take (4 * (l.length / 4))) ++ run128 fr (l.drop (4 * (l.length / 4))))
+    else .ok (run128 fr l)
+  | _, _ => .err "bad-op"
+
+def slice128Ref (op : String) (b lsh : W) (l : List (W × W128 × W128)) : Outcome (List (W × W128)) :=
+  match refLane128 op b lsh with
+  | some fr => .ok (run128 fr l)
+  | none => .err "bad-op"
+
+/-- `I128BigOps`: `(res, a, b) ↦ res'` on whole `i128` values; the `small` operands arrive sign-extended
+(`ai as i128`) in the reference and through `load4_i64_as_i128` in the AVX kernels -/
+abbrev LaneBig := W128 → W128 → W128 → W128
+
+def refLaneBig (op : String) : Option LaneBig :=
+  match op with
+  | "i128_add" => some (fun _ a b => a + b)
+  | "i128_add_assign" => some (fun r a _ => r + a)
+  | "i128_add_small" => some (fun _ a b => a + sext (lo b))
+  | "i128_add_small_assign" => some (fun r a _ => r + sext (lo a))
+  | "i128_sub" => some (fun _ a b => a - b)
+  | "i128_sub_assign" => some (fun r a _ => r - a)
+  | "i128_sub_negate_assign" => some (fun r a _ => a - r)
+  | "i128_sub_small_a" => some (fun _ a b => sext (lo a) - b)
+  | "i128_sub_small_b" => some (fun _ a b => a - sext (lo b))
+  | "i128_sub_small_assign" => some (fun r a _ => r - sext (lo a))
+  | "i128_sub_small_negate_assign" => some (fun r a _ => sext (lo a) - r)
+  | "i128_negate" => some (fun _ a _ => -a)
+  | "i128_negate_assign" => some (fun r _ _ => -r)
+  | "i128_neg_from_small" => some (fun _ a _ => -(sext (lo a)))
+  | "i128_from_small" => some (fun _ a _ => sext (lo a))
+  | _ => none
+
+def pairW (p : W × W) : W128 := join p.1 p.2
+def extW (a : W128) : W × W := Vec128.ext4 (lo a)
+
+def vecLaneBig (op : String) : Option LaneBig :=
+  let add := fun (a b : W × W) => pairW (Vec128.add4 a.1 a.2 b.1 b.2)
+  let sub := fun (a b : W × W) => pairW (Vec128.sub4 a.1 a.2 b.1 b.2)
+  let neg := fun (a : W × W) => pairW (Vec128.neg4 a.1 a.2)
+  let sp := fun (a : W128) => (lo a, hi a)
+  match op with
+  | "i128_add" => some (fun _ a b => add (sp a) (sp b))
+  | "i128_add_assign" => some (fun r a _ => add (sp r) (sp a))
+  | "i128_add_small" => some (fun _ a b => add (sp a) (extW b))
+  | "i128_add_small_assign" => some (fun r a _ => add (sp r) (extW a))
+  | "i128_sub" => some (fun _ a b => sub (sp a) (sp b))
+  | "i128_sub_assign" => some (fun r a _ => sub (sp r) (sp a))
+  | "i128_sub_negate_assign" => some (fun r a _ => sub (sp a) (sp r))
+  | "i128_sub_small_a" => some (fun _ a b => sub (extW a) (sp b))
+  | "i128_sub_small_b" => some (fun _ a b => sub (sp a) (extW b))
+  | "i128_sub_small_assign" => some (fun r a _ => sub (sp r) (extW a))
+  | "i128_sub_small_negate_assign" => some (fun r a _ => sub (extW a) (sp r))
+  | "i128_negate" => some (fun _ a _ => neg (sp a))
+  | "i128_negate_assign" => some (fun r _ _ => neg (sp r))
+  | "i128_neg_from_small" => some (fun _ a _ => neg (extW a))
+  | "i128_from_small" => some (fun _ a _ => pairW (extW a))
+  | _ => none
+
+def runBig (f : LaneBig) (l : List (W128 × W128 × W128)) : List W128 := l.map (fun t => f t.1 t.2.1 t.2.2)
+
+/-- `vi128_*_avx2(n, …)`: `n / 4` chunks through the split-lane kernels, scalar wrapping tail -/
+def sliceBigAvx (op : String) (l : List (W128 × W128 × W128)) : Outcome (List W128) :=
+  match vecLaneBig op, refLaneBig op with
+  | some fv, some fr => .ok (runBig fv (l.take (4 * (l.length / 4))) ++ runBig fr (l.drop (4 * (l.length / 4))))
+  | _, _ => .err "bad-op"
+def sliceBigRef (op : String) (l : List (W128 × W128 × W128)) : Outcome (List W128) :=
+  match refLaneBig op with
+  | some fr => .ok (runBig fr l)
+  | none => .err "bad-op"
+
 end Avx
